@@ -397,8 +397,9 @@ def specUser (u : UserCfg) : User :=
 
 def specGroup (g : GroupCfg) : Group := { name := g.name, password := ['x'], gid := g.gid, members := g.members }
 
-/-- a group without members is written as an empty member field, which reads back as `[""]` (F16e) -/
-def normGroup (g : Group) : Group := { g with members := g.members.filter (· ≠ []) }
+/- (a group without members is written as an empty member field; since the repair of F16e it reads back
+as a group without members, so the oracle below compares the group entries exactly — the former
+`normGroup`, which dropped empty member names on both sides, is gone) -/
 
 /-- `a` is `b` or one of its ancestors, component-wise -/
 def isAncestorOrSelf (a b : Text) : Bool := (parts a).isPrefixOf (parts b)
@@ -456,7 +457,7 @@ def specAccounts (c : Cfg) (pre post : FS) (cfg : AccCfg) (runAsOut : Text) : Li
      | none => [tr "old-group-unparsable"]
      | some og =>
        let wantG := og ++ cfg.groups.map specGroup
-       if (loadGroups (readText c post groupPath)).map (·.map normGroup) = some (wantG.map normGroup) then []
+       if loadGroups (readText c post groupPath) = some wantG then []
        else [tr "group"])
 
 end Apko.Accounts
